@@ -25,6 +25,7 @@ func main() {
 	solverBin := flag.String("solver", "z3", "solver binary")
 	replay := flag.String("replay", "", "replay a script natively")
 	noEvidence := flag.Bool("no-evidence", false, "do not write the evidence file")
+	budgetS := flag.Int("budget", 0, "wall-clock budget for the exploration in seconds (default: quick 900, thorough 7200)")
 	flag.Parse()
 
 	if *replay != "" {
@@ -64,6 +65,14 @@ func main() {
 	if v, ok := spec.TimeoutMs[*tier]; ok {
 		d.timeoutMs = v
 	}
+	d.start = time.Now()
+	if *budgetS == 0 {
+		*budgetS = 900
+		if *tier == "thorough" {
+			*budgetS = 7200
+		}
+	}
+	d.budget = time.Duration(*budgetS) * time.Second
 	os.Exit(d.runCheck(!*noEvidence))
 }
 
@@ -208,6 +217,9 @@ func (d *Driver) runCheck(writeEvidence bool) int {
 		if a.outcomes["ok"] == 0 && len(h.Reach) == 0 {
 			problems = append(problems, fmt.Sprintf("VACUOUS: %s has no passing path", h.Func))
 		}
+	}
+	if d.aborted {
+		problems = append(problems, fmt.Sprintf("time budget of %s exceeded: exploration incomplete", d.budget))
 	}
 	if len(d.stats.Errors) > 0 {
 		problems = append(problems, fmt.Sprintf("solver errors: %d, first: %s", len(d.stats.Errors), d.stats.Errors[0]))
